@@ -283,12 +283,13 @@ def _path_literals(st):
 
 # ------------------------------------------------------------------------------ W6
 class Bil:
-    """Multiset of bilinear terms coef * B(a, b) (symmetric), atoms are strings."""
+    """Multiset of bilinear terms coef * B_w(a, b) (symmetric in a, b); atoms are strings, w is the
+    weight of the form: 'W' (the index's weight matrix) or 'I' (plain dot product)."""
 
     def __init__(self, terms=None):
         self.t = {}
-        for (a, b), c in (terms or {}).items():
-            k = tuple(sorted((a, b)))
+        for (a, b, w), c in (terms or {}).items():
+            k = tuple(sorted((a, b))) + (w,)
             self.t[k] = self.t.get(k, 0) + c
         self.t = {k: v for k, v in self.t.items() if v != 0}
 
@@ -305,7 +306,7 @@ class Bil:
         return self.t == o.t
 
     def __repr__(self):
-        return " + ".join("%s*B(%s, %s)" % (v, a, b) for (a, b), v in sorted(self.t.items())) or "0"
+        return " + ".join("%s*B_%s(%s, %s)" % (v, w, a, b) for (a, b, w), v in sorted(self.t.items())) or "0"
 
 
 def _d(atom: str, var: str) -> str:
@@ -320,10 +321,10 @@ def _d(atom: str, var: str) -> str:
 
 def _dB(b: Bil, var: str) -> Bil:
     out = Bil()
-    for (x, y), c in b.t.items():
+    for (x, y, w), c in b.t.items():
         for a2, b2 in ((_d(x, var), y), (x, _d(y, var))):
             if a2 != "0" and b2 != "0":
-                out = out + Bil({(a2, b2): c})
+                out = out + Bil({(a2, b2, w): c})
     return out
 
 
@@ -352,14 +353,13 @@ def _collect_bil(m: Func, idx, weighted=True):
     for n in own_nodes(m.node):
         if isinstance(n, ast.Assign) and len(n.targets) == 1 and isinstance(n.targets[0], ast.Name):
             defs.setdefault(n.targets[0].id, n.value)
-    fn = "multiply_veca_vecb_matc" if weighted else "multiply_veca_vecb"
     total = None
     branch_if = [n for n in own_nodes(m.node) if isinstance(n, ast.If) and unparse(n.test) == "self.weight_matrices"]
     for bi in branch_if:
         body = bi.body if weighted else bi.orelse
         for s in body:
             if isinstance(s, ast.Assign) and unparse(s.targets[0]) == "tmp_value":
-                total = _bil_expr(s.value, defs, idx, fn)
+                total = _bil_expr(s.value, defs, idx)
     outer = None
     for r in returns(m):
         e = r.value
@@ -372,17 +372,20 @@ def _collect_bil(m: Func, idx, weighted=True):
     return total, outer
 
 
-def _bil_expr(e, defs, idx, fn):
+def _bil_expr(e, defs, idx):
     if isinstance(e, ast.BinOp) and isinstance(e.op, ast.Add):
-        l, r = _bil_expr(e.left, defs, idx, fn), _bil_expr(e.right, defs, idx, fn)
+        l, r = _bil_expr(e.left, defs, idx), _bil_expr(e.right, defs, idx)
         return None if l is None or r is None else l + r
-    if isinstance(e, ast.Call) and (dotted(e.func) or "") == fn and len(e.args) >= 2:
+    fn = (dotted(e.func) or "") if isinstance(e, ast.Call) else ""
+    if fn in ("multiply_veca_vecb_matc", "multiply_veca_vecb") and len(e.args) == (3 if fn.endswith("matc") else 2) and not e.keywords:
         a, b = _atom_of(e.args[0], defs, idx), _atom_of(e.args[1], defs, idx)
         if a is None or b is None:
             return None
-        if fn.endswith("matc") and unparse(e.args[2]) != "self.weight_matrices[index]":
-            return None
-        return Bil({(a, b): 1})
+        if fn.endswith("matc"):
+            if unparse(e.args[2]) != "self.weight_matrices[index]":
+                return None
+            return Bil({(a, b, "W"): 1})
+        return Bil({(a, b, "I"): 1})
     return None
 
 
@@ -398,7 +401,7 @@ def _w6(ctx, rep):
         if v is None or g is None or h is None:
             rep.undecided("W6", val, "squared-error schema (%s)" % lab, "value/gradient/hessian terms are not sums of bilinear forms of p-q, dp, d2p")
             continue
-        want_v = Bil({("v", "v"): 1})
+        want_v = Bil({("v", "v", "W" if weighted else "I"): 1})
         rep.check(v == want_v and vo == 1, "W6", val, "value (%s)" % lab, "sum B(v, v)", "value is %s*(%r), expected sum B(v, v)" % (vo, v), node=val.node)
         want_g = _dB(want_v, "a")            # = 2 B(dv[a], v)
         got_g = g.scale(go)
